@@ -640,7 +640,23 @@ func c11RealFailedOpen(c *evid.Ctx, rng *rand.Rand) {
 				f.WriteAt(bytes.Repeat([]byte{0xab}, 32), 0)
 				f.Close()
 			}
-			_, err = drv.OpenDir(dir, drv.Cfg{SegSize: 512})
+			first := make(chan error, 1)
+			go func() {
+				_, e := drv.OpenDir(dir, drv.Cfg{SegSize: 512})
+				first <- e
+			}()
+			select {
+			case err = <-first:
+			case <-time.After(60 * time.Second):
+				buf := make([]byte, 1<<17)
+				st := string(buf[:runtime.Stack(buf, true)])
+				if strings.Contains(st, "raft-wal.Open(") {
+					c.Violation("C11:hang:real-open:"+kind, "Open of a real directory with a damaged sealed segment / metadata record did not return (blocked inside raft-wal.Open)", map[string]any{"kind": kind, "stack": st[:min(len(st), 4000)]})
+				} else {
+					c.Inconclusive("Open did not return within the watchdog but is not inside raft-wal.Open")
+				}
+				return
+			}
 			c.Count("cases", 1)
 			c.Count("real_failed_open_cases", 1)
 			c.Distinct("case_classes", "real-failed-open|"+kind)
